@@ -295,7 +295,7 @@ func runHistory(c *hx.Ctx, r *hx.Rng, idx int, maxOps int) error {
 			for _, w := range h.wal {
 				h.base.apply(w.rows)
 			}
-			h.wal = nil
+			h.wal, h.ctr = nil, 0 // the WAL counter restarts at a switch (repaired code)
 			for k := range h.inMem {
 				h.flushed[k] = true
 			}
